@@ -53,7 +53,16 @@ SkipOk(aid) == (Strict \cap {"C02", "C04", "C09", "C10", "C05"} = {}) \/ own = a
 TrCSetSkip == Is("MSet") /\ Ev.ok /\ SkipOk(Ev.aid) /\ CSetSkip(Ev.aid) /\ Consume
 TrTrialSetSkip == Is("MSet") /\ Ev.ok /\ SkipOk(Ev.aid) /\ (\E dec \in Decisions : TrialSetSkip(Ev.aid, dec)) /\ Consume
 TrResetSetSkip == Is("MSet") /\ Ev.ok /\ SkipOk(Ev.aid) /\ ResetSetSkip(Ev.aid) /\ Consume
-TrCSetEnd == Is("CSetEnd") /\ CSetEnd /\ Consume /\ StateGuards({"C09", "C02", "C10"})
+\* the model's parameters are not re-applied when it already holds them (the evaluation is repeated)
+TrBuildSameEval == Is("MEval") /\ BuildSameEval(Ev.aid, Ev.ok) /\ Consume
+TrCSameEval == Is("MEval") /\ Ev.aid = tgt /\ CSameEval(Ev.ok) /\ Consume
+TrTrialSameEval == Is("MEval") /\ Ev.aid = tgt /\ (\E dec \in Decisions : TrialSameEval(Ev.ok, dec)) /\ Consume
+TrResetSameEval == Is("MEval") /\ Ev.aid = tgt /\ ResetSameEval(Ev.ok) /\ Consume
+TrCSetEnd ==
+  /\ Is("CSetEnd") /\ CSetEnd /\ Consume /\ StateGuards({"C09", "C02", "C10"})
+  \* a present cache after an update means the update went through: the problem then reports the
+  \* parameters the caller asked for
+  /\ G({"C09", "C02", "C10"}, own # -1 => Ev.params = Ev.req)
 TrCJacDeriv ==
   /\ Is("MDeriv")
   /\ CJacDeriv(Ev.k, Ev.ok)
@@ -95,6 +104,9 @@ EndGuards ==
         /\ Ev.present /\ InSeq(acc, Ev.owners)
         /\ Ev.objrank = Ev.frank[acc + 1]
         /\ Ev.frank[acc + 1] <= Ev.frank[aid0 + 1])
+  \* what is handed back belongs together: residuals = W(Y - Phi(alpha) C) for the returned alpha and C,
+  \* objective = |residuals|^2 / 2 (recomputed by the harness from its own model; digested into a boolean)
+  /\ G({"C04", "C02"}, ~faultSeen => Ev.coherent)
   /\ G({"C09"}, seenNone => (~Ev.ok /\ Ev.term = "User"))
   \* truthfulness of the failure report: the optimizer gives up with "User" only after it has
   \* really been handed an absent value
@@ -139,6 +151,7 @@ Next == \/ (TrBuildStart /\ jset' = {})
                \/ TrResetSet \/ TrResetEval \/ TrFitEnd
                \/ TrStaleBuildEval \/ TrStaleCSetEval \/ TrStaleTrialEval
                \/ TrCSetSkip \/ TrTrialSetSkip \/ TrResetSetSkip
+               \/ TrBuildSameEval \/ TrCSameEval \/ TrTrialSameEval \/ TrResetSameEval
                \/ TrStatDeriv \/ TrStatEval \/ TrStatsEnd \/ TrPostEval \/ TrBestFit
             /\ UNCHANGED jset)
 Spec == Init /\ [][Next]_vars
